@@ -1,6 +1,7 @@
 package headers
 
 import (
+	"errors"
 	"fmt"
 	"log/slog"
 	"strconv"
@@ -33,6 +34,9 @@ func splitDirectives(ccHeader string) []string {
 	return append(directives, ccHeader[start:])
 }
 
+// The largest delta-seconds value used (RFC 9111 section 1.2.2).
+const maxDeltaSeconds = 1 << 31
+
 func parseCacheControl(ccHeader string) (cacheControl, error) {
 	cc := cacheControl{}
 	var parseErr error
@@ -50,6 +54,10 @@ func parseCacheControl(ccHeader string) (cacheControl, error) {
 			// The value may be sent as a token or as a quoted-string.
 			value = strings.Trim(strings.TrimSpace(value), "\"")
 			maxAge, err := strconv.ParseInt(value, 10, 64)
+			if errors.Is(err, strconv.ErrRange) && maxAge > 0 {
+				// More seconds than 64 bits hold: still a (very long) lifetime, not an error.
+				err = nil
+			}
 			if !hasValue || err != nil {
 				// An unusable max-age gives no freshness information: do not cache, but keep
 				// honouring the other directives instead of discarding the whole header.
@@ -61,6 +69,12 @@ func parseCacheControl(ccHeader string) (cacheControl, error) {
 				cc.noCache = true // If max-age is less than 1, treat it as no-cache
 				slog.Debug("max-age is less than 1 second, treating as no-cache", "raw", directive)
 				continue
+			}
+			// A lifetime beyond what a time.Duration can express (292 years) would wrap to a negative
+			// one and make the response look uncacheable; RFC 9111 section 1.2.2 asks for 2^31 seconds
+			// in that case.
+			if maxAge > maxDeltaSeconds {
+				maxAge = maxDeltaSeconds
 			}
 			cc.maxAge = time.Duration(maxAge) * time.Second
 		}
